@@ -23,7 +23,7 @@ LEVEL_NOTE = ('trusted: the reference codec R1 (unit-tested), CPython; names tha
               '(C16) and counted as not-trashed here; dates outside 4-digit years are out of scope')
 RULE = ('names: each byte b in 1..255 (b != "/") as "b", "ab", "abc" (bytes >= 0x80 inside valid UTF-8 sequences: all 2-byte code '
         'points on a stride, 3- and 4-byte sequences covering every lead and continuation byte), ordered pairs (thorough: triples) '
-        'of the special set, lengths 1/243..255, depth 1-3 with special directory names; x {home, topdir} ; entry kinds {directory, symlink to a file / directory elsewhere, dangling, ..} x 2 depths x 2 names; home trash on its own volume x 3 depths x 4 names; dates {1970,2000-02-29,'
+        'of the special set, lengths 1/243..255, depth 1-3 with special directory names; x {home, topdir} ; entry kinds {directory, symlink to a file / directory elsewhere, dangling, ..} x 2 depths x 2 names; home trash on its own volume x 3 depths x 4 names; 2-3 arguments in one run x {-, -i, -v} under a clock that advances a minute per reading (dates strictly increasing); dates {1970,2000-02-29,'
         '2038,9999} x microseconds {0,999999}; non-trivial = trash-put succeeded and wrote an info; distinct = outcome class x name class x form')
 SPECIAL = ['%', '+', ' ', '\n', '\r', '\t', '=', '[', ']', '#', '?', '&', ';', ':', '\\', '"', "'", '*', '~', '%25', '%2F', '%0A']
 DATES = ['1970-01-01T00:00:00', '2000-02-29T23:59:59', '2038-01-19T03:14:08', '9999-12-31T23:59:59']
@@ -92,6 +92,11 @@ def cases(tier):
             for dirs in ([], ['d 1', 'e']):
                 for n in ('f', 'a b%'):
                     out.append({'name': n, 'form': form, 'dirs': dirs, 'date': '2024-05-06T07:08:09', 'us': 0, 'kind': kind})
+    # several arguments in one run under a clock that advances one minute per reading: each entry carries the time IT was trashed
+    for form in ('home', 'topdir'):
+        for opt in ('-', '-i', '-v'):
+            for n in (2, 3):
+                out.append({'name': 'multi', 'form': form, 'dirs': [], 'date': '2024-05-06T07:08:09', 'us': 0, 'multi': n, 'opt': opt})
     # a home trash that lives on its own volume (/home is a mount point): absolute Paths, read back unchanged by every reader
     for dirs in ([], ['d 1'], ['home', 'u']):
         for n in ('f', '%41', 'a b', 'é'):
@@ -120,7 +125,36 @@ def nclass(n):
     return 'ascii-alnum' if n.isalnum() else 'ascii-punct'
 
 
+def run_multi(c):
+    top = '/mnt/v1' if c['form'] == 'topdir' else '/home/u'
+    B = top + '/w'
+    W = scen.base_world(mounts=['/', '/mnt/v1'], cwd=B)
+    names = ['m%d' % i for i in range(c['multi'])]
+    for n in names:
+        W.file(B + '/' + n, 'payload %s\n' % n)
+    argv = ['trash-put'] + ([c['opt']] if c['opt'] != '-' else []) + names
+    with cell.Sandbox(W.spec()) as sb:
+        before = sb.snapshot()
+        r = sb.run(argv, cwd=B, now=c['date'], stdin='y\n' * len(names) if c['opt'] == '-i' else None, plan={'clock_step_us': 60 * 10 ** 6})
+        after = sb.snapshot()
+    dates = []
+    for td, nm in scen.new_infos(before, after):
+        p = R1.parse(scen.info_of(after, td, nm))
+        dates.append((p['path'].rsplit(b'/', 1)[-1].decode(), p['date'].decode()))
+    dates.sort()
+    detail = {'argv': argv, 'exit': r.exit, 'err': r.err[-200:], 'dates': dates}
+    nt = 'multi|%s|%s|%d' % (c['form'], c['opt'], c['multi'])
+    if r.exit != 0 or [d[0] for d in dates] != names:
+        return {'verdict': 'viol', 'sig': 'C03|valid-name-not-trashed|multi', 'klass': 'not-trashed', 'nontrivial': nt, 'detail': detail}
+    ds = [d[1] for d in dates]
+    if any(ds[i] >= ds[i + 1] for i in range(len(ds) - 1)) or ds[0] < c['date']:
+        return {'verdict': 'viol', 'sig': 'C03|wrong-date|several-arguments-one-clock-reading', 'klass': 'wrong-date', 'nontrivial': nt, 'detail': detail}
+    return {'verdict': 'ok', 'klass': 'each-entry-its-own-time', 'nontrivial': nt, 'detail': detail}
+
+
 def run_case(c):
+    if c.get('multi'):
+        return run_multi(c)
     top = '/mnt/v1' if c['form'] == 'topdir' else '/home/u'
     B = top + '/w' + ''.join('/' + d for d in c['dirs'])
     W = scen.base_world(mounts=['/', '/mnt/v1'] + (['/home'] if c['form'] == 'home-ownvol' else []), cwd=B)
